@@ -39,6 +39,10 @@ type Profile struct {
 	Lifecycle    bool // bias towards crash / silence / expiry steps
 	TinyPackets  bool // allow packet sizes down to the minimum viable
 	LongVals     int  // chance (out of 10) that an upsert writes a long value (default 2)
+	// WriteAfterLeave: a node that has left but is still running keeps writing and
+	// deleting keys (a server's upstream handlers withdraw their endpoints on their
+	// own goroutines, after the node has announced its departure)
+	WriteAfterLeave bool
 }
 
 var baseWeights = map[string]int{
@@ -684,6 +688,20 @@ func filter(ns []*Node, f func(*Node) bool) []*Node {
 	return out
 }
 
+// keyWriters: who may upsert/delete plain keys in this step.
+func (s *Sim) keyWriters(live, writers []*Node) []*Node {
+	if !s.p.WriteAfterLeave {
+		return writers
+	}
+	for _, n := range live {
+		if n.left {
+			s.c.Class("writes-after-leave-possible")
+			break
+		}
+	}
+	return live
+}
+
 func (s *Sim) drawKey() string { return simKeys[s.c.Pick("key", len(simKeys))] }
 func (s *Sim) drawVal() string {
 	num := s.p.LongVals
@@ -712,6 +730,9 @@ func (s *Sim) Step() {
 		if len(filter(writers, func(n *Node) bool { return len(n.ups) > 0 })) > 0 {
 			enabled["removeConn"] = true
 		}
+	}
+	if s.p.WriteAfterLeave && len(live) > 0 {
+		enabled["upsert"], enabled["delete"] = true, true
 	}
 	if len(live) > 0 {
 		for _, k := range []string{"liveness", "advance", "silence"} {
@@ -774,13 +795,13 @@ func (s *Sim) Step() {
 	s.begin(kind, nil)
 	switch kind {
 	case "upsert":
-		n := s.pickFrom("node", writers)
+		n := s.pickFrom("node", s.keyWriters(live, writers))
 		k, v := s.drawKey(), s.drawVal()
 		c.Stepf("%s: upsert(%q,%q)", n.id, k, v)
 		n.n.State.UpsertLocal(k, v)
 		s.snapshotLocal(n)
 	case "delete":
-		n := s.pickFrom("node", writers)
+		n := s.pickFrom("node", s.keyWriters(live, writers))
 		k := s.drawKey()
 		c.Stepf("%s: delete(%q)", n.id, k)
 		n.n.State.DeleteLocal(k)
